@@ -458,6 +458,65 @@ def two_sparse_layers_section(ctx):
         compare_masters(ctx, case, outs)
 
 
+def source_order_section(ctx):
+    """the ORDER of the sources must not matter: a source that lacks glyphs (a sparse layer in a designspace, a smaller font in a
+    list) is listed FIRST.  The full masters hold a composite whose 2x2 differs between them (to be decomposed jointly), a
+    nested composite (flattening) and a composite using a non-exported part; every full master must come out compatible with
+    the default one, exactly as when the full sources are listed first"""
+    import ufo2ft
+    from fontTools.designspaceLib import SourceDescriptor
+    rng = ctx.subrng("source-order")
+    box = lambda x0, x1, y1: [[(Fr(x0), Fr(0), "line"), (Fr(x1), Fr(0), "line"), (Fr(x1), Fr(y1), "line"), (Fr(x0), Fr(y1), "line")]]
+    one = (Fr(1), Fr(0), Fr(0), Fr(1))
+    for i in range(ctx.budget(8, 24)):
+        lib = ["ufoLib2", "defcon"][i % 2]
+        fn, kw = [("compileInterpolatableTTFsFromDS", {}), ("compileInterpolatableTTFsFromDS", {"flattenComponents": True}),
+                  ("compileInterpolatableOTFsFromDS", {}), ("compileInterpolatableTTFs", {})][(i // 2) % 4]
+
+        def master(k):
+            d = 60 * k
+            sc = Fr(1) - Fr(k, 8)
+            return {"glyphs": [
+                {"name": "a", "unicodes": [0x61], "width": Fr(500 + d), "contours": box(50, 400 + d, 500), "components": [], "anchors": []},
+                {"name": "_part", "unicodes": [], "width": Fr(0), "contours": box(100, 200 + d, 80), "components": [], "anchors": []},
+                {"name": "aacute", "unicodes": [0xE1], "width": Fr(500 + d), "contours": [], "anchors": [],
+                 "components": [("a", one + (Fr(0), Fr(0))), ("_part", one + (Fr(50 + d), Fr(560)))]},
+                {"name": "ascaled", "unicodes": [0x1D00], "width": Fr(450 + d), "contours": [], "anchors": [],
+                 "components": [("a", (sc, Fr(0), Fr(0), sc, Fr(5), Fr(0)))]},
+                {"name": "anested", "unicodes": [], "width": Fr(900 + d), "contours": [], "anchors": [],
+                 "components": [("aacute", one + (Fr(0), Fr(0))), ("a", one + (Fr(480 + d), Fr(0)))]}],
+                "glyphOrder": ["a", "_part", "aacute", "ascaled", "anested"], "kerning": {}, "groups": {}, "lib": {},
+                "info": {"familyName": "Fam", "styleName": "Master%d" % k, "unitsPerEm": 1000, "ascender": 800, "descender": -200}}
+        masters = [master(0), master(2)]
+        small = {"glyphs": [g for g in master(1)["glyphs"] if g["name"] == "a"], "glyphOrder": ["a"]}
+        case = {"function": fn, "options": kw, "lib": lib, "first_source": "the one that lacks glyphs", "font": jsonable(masters[0])}
+        ctx.count(); ctx.klass("source order: %s%s, partial source first" % (fn, "+flatten" if kw else "")); ctx.nontriv(("so", i, ctx.scale))
+        try:
+            if fn == "compileInterpolatableTTFs":
+                fonts = [build_font(small, lib)] + [build_font(m, lib) for m in masters]
+                outs = list(ufo2ft.compileInterpolatableTTFs(fonts, skipExportGlyphs=["_part"], useProductionNames=False))
+                full = outs[1:]
+            else:
+                ds, fonts = dsgen.make_designspace(rng, masters, lib, instances=False)
+                layer = fonts[0].newLayer("Medium")
+                tmp = build_font(small, lib)
+                gl = layer.newGlyph("a"); gl.width = tmp["a"].width; tmp["a"].drawPoints(gl.getPointPen())
+                sd = SourceDescriptor()
+                sd.font, sd.layerName, sd.location, sd.name = fonts[0], "Medium", {"Weight": 500}, "master.Medium"
+                sd.familyName, sd.styleName = "Fam", "Medium"
+                ds.sources.insert(0, sd)
+                ds.lib["public.skipExportGlyphs"] = ["_part"]
+                res = getattr(ufo2ft, fn)(ds, useProductionNames=False, **kw)
+                full = [s_.font for s_ in res.sources if s_.name != "master.Medium"]
+        except Exception as e:
+            ctx.spec_failure(case, "%s raised %s: %s\n%s" % (fn, type(e).__name__, e, traceback.format_exc()[-1000:]))
+            continue
+        for k, f in enumerate(full):
+            if "_part" in f.getGlyphOrder():
+                ctx.spec_failure(dict(case, master=k), "the non-exported glyph '_part' is in full master %d" % k)
+        compare_masters(ctx, case, full)
+
+
 def per_master_filter_section(ctx):
     """masters whose libs name the SAME filter (one that has an interpolatable form) with DIFFERENT include / exclude lists:
     master 0 asks for composite B only, master 1 for B and C.  Whatever is decomposed must be decomposed in every master."""
@@ -507,6 +566,7 @@ def explore(ctx):
     per_master_filter_section(ctx)
     notdef_family_section(ctx)
     two_sparse_layers_section(ctx)
+    source_order_section(ctx)
     filter_list_length_section(ctx)
     placeholders_section(ctx)
     nonmatching_section(ctx)
